@@ -8,7 +8,7 @@ const METHOD_NAMES = new Set(['trim', 'concat', 'substring', 'toUpperCase', 'alo
 
 class World {
   constructor () { this.log = []; this.labels = new WeakMap(); this.n = 0 }
-  ev (...e) { this.log.push(e) }
+  ev (...e) { if (!this.muted) this.log.push(e) }
 
   canon (v, depth = 0) {
     const t = typeof v
@@ -159,8 +159,9 @@ async function compile (code, kind, filename, preinstall) {
 
 const RUNNER = new vm.Script('__r = undefined; __t = undefined; try { __r = main.call(__self, __E) } catch (e) { __t = { e } }')
 
-async function runOne (ctx, spec) {
+async function runOne (ctx, spec, onWorld) {
   const { w, E, self } = makeEnv(spec)
+  if (onWorld) onWorld(w)
   ctx.__E = E
   ctx.__self = self
   let result
